@@ -120,7 +120,7 @@ Section Reorder.
   Fixpoint rinsert (x : A * Z) (l : list (A * Z)) : list (A * Z) :=
     match l with
     | [] => [x]
-    | y :: l' => if snd x <? snd y then x :: l else y :: rinsert x l'
+    | y :: l' => if snd x <=? snd y then x :: l else y :: rinsert x l'
     end.
   (** stable sort by timestamp (`glidesort` is stable) *)
   Definition rsort (l : list (A * Z)) : list (A * Z) := fold_right rinsert [] l.
